@@ -735,6 +735,11 @@ std::vector<UnitsPtr> referencedUnits(const ModelPtr &model, const UnitsPtr &uni
         const std::string ref = units->unitAttributeReference(index);
         if (!isStandardUnitName(ref)) {
             auto refUnits = model->units(ref);
+            if (refUnits == nullptr) {
+                // The referenced units are not defined in the model: there is
+                // nothing to follow.
+                continue;
+            }
             auto requiredUnitsUnits = referencedUnits(model, refUnits, path);
             requiredUnits.insert(requiredUnits.end(), requiredUnitsUnits.begin(), requiredUnitsUnits.end());
             requiredUnits.push_back(refUnits);
